@@ -192,10 +192,37 @@ class Interp:
 
     # ------------------------------------------------------------------ statements
     def exec_block(self, stmts, cc: CallCtx):
-        for s in stmts:
+        for k, s in enumerate(stmts):
             if cc.done:
                 return
+            cont = cc.__dict__.setdefault("cont_conds", [])
+            n0 = len(cont)
             self.exec_stmt(s, cc)
+            if len(cont) > n0 and k + 1 < len(stmts):
+                # `if c: continue` inside statement s: the remainder of this block runs only when no such path was taken
+                cur = self._innermost_loop_fid()
+                mine = [F for fid, F in cont[n0:] if fid == cur]
+                if mine:
+                    frames = []
+                    for F in mine:
+                        c = F[0]
+                        for x in F[1:]:
+                            c = CondV("and", c, x)
+                        fr = Frame("guard", cond=CondV("not", c))
+                        self.frames.append(fr)
+                        frames.append(fr)
+                    try:
+                        self.exec_block(stmts[k + 1:], cc)
+                    finally:
+                        for _ in frames:
+                            self.frames.pop()
+                    return
+
+    def _innermost_loop_fid(self):
+        for f in reversed(self.frames):
+            if f.kind == "loop":
+                return f.fid
+        return None
 
     def exec_stmt(self, s, cc: CallCtx):
         m = getattr(self, "st_" + type(s).__name__, None)
@@ -525,6 +552,14 @@ class Interp:
         raise _BranchExit()
 
     def st_Continue(self, s, cc):
+        conds = []
+        for f in reversed(self.frames):
+            if f.kind == "loop":
+                break
+            if f.kind == "guard":
+                conds.append(f.cond)
+        if conds:
+            cc.__dict__.setdefault("cont_conds", []).append((self._innermost_loop_fid(), tuple(reversed(conds))))
         raise _BranchExit()
 
     # ------------------------------------------------------------------ loops
